@@ -7,7 +7,7 @@ VERIF = os.path.dirname(os.path.dirname(os.path.abspath(__file__)))
 
 # prefixes: expressions that evaluate without error to a NON-NULL value on the document {"a": [1, 2]}, followed by a pipe
 prefixes = ["", "@ | ", "`\"é€\"` | ", "a\n|\n", "'\U0001F600é' |\n  ", "length(`[1]`) | ", "[@, `1`][0] |\n'é'\n| ",
-            "not_null(`null`, length('éé'))\n| ",
+            "not_null(`null`, length('éé'))\n| ", "'a\u2028b\u000bc\u0085d\u000ce\rf' | ",
             # long lines: more than 128 (and 256) characters before the error, single- and multi-byte
             "'" + "a" * 140 + "' | ", "'" + "é" * 70 + "\U0001F600" * 70 + "' |\n'x' | " + "to_array(@) | " * 10, "'" + "€" * 300 + "' | "]
 # sites: name, what precedes the failing call inside the form, the call name, the text from "(" to the end of the form,
@@ -52,6 +52,12 @@ sites = [
   dict(n="maxby_after_paren", pre="", call="min_by", rest="(`[{\"a\": [1, 2]}, {\"a\": [\"x\", 3]}]`, &(a)[0])", kind="type"),
   dict(n="maxby_after_cmp", pre="", call="max_by", rest="(`[{\"a\": [1, 2]}, {\"a\": [\"x\", 3]}]`, &`1` < `2` && a[0])", kind="type"),
   dict(n="maxby_after_vals", pre="", call="sort_by", rest="(`[{\"a\": [1, 2]}, {\"a\": [\"x\", 3]}]`, &{k: a[0]}.* | [0])", kind="type"),
+  # two levels of expression references: the by-function fails after its key expression ran a call that itself took an expression
+  # reference whose body made a call (every level has a caller's position to give back)
+  dict(n="sortby_two_levels", pre="", call="sort_by", rest="(`[[1], [2]]`, &map(&abs(@), @))", kind="type"),
+  dict(n="maxby_two_levels", pre="", call="max_by", rest="(`[[3, 1], [2]]`, &sort_by(@, &abs(@)))", kind="type"),
+  dict(n="minby_two_levels", pre="length(", call="min_by", rest="(`[[1], [2]]`, &map(&not_null(@, length('é')), @)))", kind="type"),
+  dict(n="sortby_three_levels", pre="", call="sort_by", rest="(`[[[1]], [[2]]]`, &map(&map(&abs(@), @), @))", kind="type"),
   dict(n="after_ok_slice", pre="", call="abs", rest="(a[0:1][0], `2`)", kind="arity"),
   dict(n="after_ok_slice2", pre="not_null(a[1:], ", call="abs", rest="(`true`))", kind="type"),
   # blanks between the function name and its "(" (the lexer allows them): the error still points at the "("
